@@ -16,11 +16,12 @@ std::vector<std::pair<size_t, size_t>> g_cases;
 const size_t CHUNK = 24;
 
 struct Plan { size_t perRealFile; size_t perSynFile; int synVersionsPerType; int multi; int apiModels; };
-Plan plan() { return g_cfg.tier ? Plan{2400, 400, 14, 60, 40} : Plan{110, 36, 1, 8, 8}; }
+Plan plan() { return g_cfg.tier ? Plan{2400, 400, 14, 60, 40} : Plan{240, 54, 1, 8, 8}; }
 
-const char* KINDS[] = {"empty", "count", "beyond-count", "self", "parent", "root", "in-range-any", "max-1"};
+const char* KINDS[] = {"empty", "count", "beyond-count", "self", "parent", "root", "in-range-any", "max-1", "other-block-of-the-same-type"};
+const int NKINDS = 9;
 
-void buildFaults(Entry& e, const std::vector<RefSite>& sites, const std::vector<int>& parentOf, size_t budget, int multi, Rng& rng) {
+void buildFaults(Entry& e, const std::vector<RefSite>& sites, const std::vector<int>& parentOf, const std::vector<std::string>& types, size_t budget, int multi, Rng& rng) {
 	uint32_t nb = e.numBlocks;
 	auto valueFor = [&](const RefSite& s, int kind, Rng& r) -> uint32_t {
 		switch (kind) {
@@ -31,6 +32,15 @@ void buildFaults(Entry& e, const std::vector<RefSite>& sites, const std::vector<
 			case 4: return parentOf[s.block] >= 0 ? (uint32_t)parentOf[s.block] : 0;
 			case 5: return 0;
 			case 6: return r.below(nb ? nb : 1);
+			case 8: {
+				// passes every type check of the reader: two blocks of one type exchanged (e.g. a skin instance pointed at the skin
+				// data of another shape, whose arrays have other lengths)
+				if (s.orig >= types.size()) return s.orig;
+				std::vector<uint32_t> c;
+				for (uint32_t j = 0; j < types.size(); j++)
+					if (j != s.orig && types[j] == types[s.orig]) c.push_back(j);
+				return c.empty() ? s.orig : c[r.below((uint32_t)c.size())];
+			}
 			default: return 0xFFFFFFFEu;
 		}
 	};
@@ -38,23 +48,32 @@ void buildFaults(Entry& e, const std::vector<RefSite>& sites, const std::vector<
 	std::map<std::string, std::vector<size_t>> strata;
 	for (size_t i = 0; i < sites.size(); i++) strata[sites[i].blockType + "->" + sites[i].cls].push_back(i);
 	std::vector<std::pair<size_t, int>> order;
+	// strata in a seeded order (a budget cut must not always hit the same block types)
+	std::vector<const std::vector<size_t>*> sv;
+	for (auto& kv : strata) sv.push_back(&kv.second);
+	for (size_t i = sv.size(); i > 1; i--) std::swap(sv[i - 1], sv[rng.below((uint32_t)i)]);
+	// a quarter of the budget: the same-type exchange on *every* field of the small strata (its effect depends on which of
+	// the two blocks is the larger one, so the first field of a stratum is not representative)
+	std::vector<std::pair<size_t, int>> swaps;
+	for (auto v : sv)
+		if (v->size() <= 8)
+			for (size_t j = 1; j < v->size(); j++) swaps.push_back({(*v)[j], 8});
+	if (swaps.size() > budget / 4) swaps.resize(budget / 4);
 	size_t round = 0;
 	bool any = true;
-	while (any && order.size() < budget) {
+	while (any && order.size() + swaps.size() < budget) {
 		any = false;
-		for (auto& kv : strata) {
-			if (round >= kv.second.size() && round > 0) continue;
+		for (auto v : sv) {
+			if (round >= v->size() && round > 0) continue;
 			any = true;
-			size_t si = kv.second[round % kv.second.size()];
-			for (int k = 0; k < 8; k++) order.push_back({si, k});
+			size_t si = (*v)[round % v->size()];
+			for (int k = 0; k < NKINDS; k++) order.push_back({si, k});
 		}
 		round++;
 		if (round > 4000) break;
 	}
-	if (order.size() > budget) {
-		// keep whole strata first, then cut
-		order.resize(budget);
-	}
+	if (order.size() + swaps.size() > budget) order.resize(budget - swaps.size());
+	order.insert(order.end(), swaps.begin(), swaps.end());
 	for (auto& [si, k] : order) {
 		const RefSite& s = sites[si];
 		uint32_t v = valueFor(s, k, rng);
@@ -70,7 +89,7 @@ void buildFaults(Entry& e, const std::vector<RefSite>& sites, const std::vector<
 		f.what = e.name + ": multi ";
 		for (int j = 0; j < n; j++) {
 			const RefSite& s = sites[rng.below((uint32_t)sites.size())];
-			int k = (int)rng.below(8);
+			int k = (int)rng.below(NKINDS);
 			uint32_t v = valueFor(s, k, rng);
 			f.patches.push_back({s.pos, v});
 			f.what += fmt("[block %u (%s) @%zu: %u -> %u (%s)]", s.block, s.blockType.c_str(), s.pos, s.orig, v, KINDS[k]);
@@ -101,7 +120,10 @@ bool addFile(const std::string& name, const std::string& bytes, size_t budget, i
 		}
 	if (sites.empty()) return false;
 	Rng rng(seed);
-	buildFaults(e, sites, parentOf, budget, multi, rng);
+	std::vector<std::string> types;
+	for (auto& b : tr.blocks) types.push_back(b.obj->GetBlockName());
+	buildFaults(e, sites, parentOf, types, budget, multi, rng);
+	if (g_cfg.verbose) for (auto& f : e.faults) fprintf(stderr, "FAULT %s\n", f.what.c_str());
 	g_files.push_back(std::move(e));
 	return true;
 }
